@@ -164,6 +164,8 @@ def main():
     tier = sys.argv[1] if len(sys.argv) > 1 else "quick"
     run = Run(PID, tier)
     cache = FnCache()
+    from harness.lie import prelude as _prelude
+    _prelude(run, report=())
     if "--replay" in sys.argv:
         d = json.load(open(sys.argv[sys.argv.index("--replay") + 1]))
         replay(run, cache, d["data"]["tv"])
